@@ -252,7 +252,10 @@ func goNativeClass(r *rng, v interface{}, cls string) interface{} {
 	has := func(c string) bool { return strings.Contains(cls, c) }
 	switch x := v.(type) {
 	case float64:
-		if x == float64(int64(x)) && x >= 0 && x < 200 {
+		if negZero := x == 0 && math.Signbit(x); negZero {
+			// -0 has no integer representation: converting it would change the value, not its Go type
+			return x
+		} else if x == float64(int64(x)) && x >= 0 && x < 200 {
 			switch r.intn(6) {
 			case 0:
 				if has("i") {
